@@ -87,6 +87,15 @@ def run(ctx):
                 continue
             key = P.site_key(fn, s)
             row = ledger.get(key)
+            if row is None or used.get(key, 0) >= row["max"]:
+                # same function, same kind of site, same operation (`Option::expect(`) with reviewed capacity left: the
+                # expression feeding a reviewed `expect` was rewritten (`values().last().cloned()` -> `last_key_value()`); an
+                # *additional* site of that shape still exceeds the reviewed count
+                stem = key.split("(")[0] + "("
+                alt = [k_ for k_, r_ in ledger.items() if k_.startswith(stem) and used.get(k_, 0) < r_["max"]]
+                if alt and s["kind"] == "Call":
+                    key = alt[0]
+                    row = ledger[key]
             used[key] = used.get(key, 0) + 1
             if row and used[key] <= row["max"]:
                 n_led += 1
